@@ -217,9 +217,15 @@ def c17(tier, seed):
         ded = seq_cases(prop, "hardening", vs, 1, 100, seed, extra_args=["--scenario", sc], label_prefix=sc + "-", start_index=90000)
         for c in ded: c.meta["dedicated"] = sc; c.meta["scenario"] = sc
         cases += ded
+    # exact boundaries of the link check: links forged WITH the page's keys to decode just outside the page area (drv_forge.c, allocator included as one translation unit)
+    fexe = build.static_driver("drv_forge", "sec")
+    for i in range(tier_n(tier, 8, 100)):
+        s = case_seed(seed, prop, 70000 + i)
+        cases.append(Case("C17-forge-sec-%d" % s, [fexe, "--seed", s, "--rounds", 300], env=san_env("sec", prop, ""), timeout=300, crash_refutes=[prop], meta={"variant": "sec", "profile": "forge", "seed": s}))
     v = Verdict(prop)
     for c in core.run_cases(cases): v.add(c)
     cov = seq_cov(cases)
+    cov["links_forged_at_area_boundaries"] = core.merge_counts(cases, "forge")
     cov["attacks"] = core.merge_counts(cases, "hardening")
     cov["attacks_sec"] = core.merge_counts([c for c in cases if c.meta["variant"] == "sec"], "hardening")
     cov["attacks_dbg"] = core.merge_counts([c for c in cases if c.meta["variant"] == "dbg"], "hardening")
@@ -227,8 +233,9 @@ def c17(tier, seed):
                   "a case = an ordinary history with program errors inserted at random points: a second free of a thread-local block whose page holds another live block (expect EAGAIN), "
                   "a foreign byte written at p[n] (expect EFAULT at free), a freed block's link overwritten with a random 64-bit value followed by allocations of that class until the allocator "
                   "reaches it (expect EFAULT); sec: ~25 attacks per case and every shadow-model oracle (overlap, contents, conservation, returned address inside OS regions) stays on afterwards; "
-                  "dbg: one attack per case, the case ends at the expected report; non-trivial = >=1 attack executed; distinct = (variant, op-list hash)",
-                  lambda r, c: sum(r.get("hardening", {}).get(k, 0) for k in ("double_free", "overflow", "forged_link")) >= 1, cov,
+                  "dbg: one attack per case, the case ends at the expected report; plus (sec) 8 processes x 300 links forged with the page's own keys to decode one past the end of / just before / "
+                  "just beyond the block's page area (must be reported, and nothing but blocks of the heap's own pages may be handed out afterwards); non-trivial = >=1 attack executed; distinct = (variant, op-list hash)",
+                  lambda r, c: sum(r.get("hardening", {}).get(k, 0) for k in ("double_free", "overflow", "forged_link")) + r.get("forge", {}).get("forged_links", 0) >= 1, cov,
                   SEQ_ASSUME + ["forged links are random 64-bit values (the statement's exception: decoding into the same area has probability ~2^-48)"])
 
 def _drv_case(prop, label, variant, args, env=None, timeout=240, crash_refutes=None, meta=None):
@@ -750,6 +757,8 @@ OPT_FORMS = ["1", "0", "true", "TRUE", "True", "yes", "no", "on", "off", "ON", "
              "1K", "1KiB", "1KB", "1kib", "2M", "2MiB", "2MB", "3G", "3GiB", "3gb", "4T", "4TiB", "1024", "1025", "1023", "100000T", "8388608G", "9007199254740993K", "18014398509481984M",
              "18014398509481984M", "18014398509481985MiB", "18014398509481988Mb", "17592186044416G", "17592186044417GiB", "17592186044420Gb", "17179869184T", "17179869185TiB", "34359738372Tb", "17179869188T",
              "9007199254740992K", "274877906944M", "268435456G", "262144T", "262145T",
+             # the value buffer holds 64 characters: a value of exactly 64 is parsed, a longer one is not (also not its well-formed first 64 characters)
+             "0" * 62 + "25", "0" * 63 + "25", "0" * 63 + "77", "0" * 61 + "025x", "0" * 2000 + "5", "0" * 60 + "4KiB", "0" * 63 + "4GiB", " " * 63 + "1", " " * 64 + "1",
              "1Ki", "1KiBx", "1 K", "K", "12abc", "0x10", "1e3", "1.5", "--1", "1-", "1,5", "12 ", "=1", "1=2", "\u00e9", "\u20ac1", "1\u20ac", "-", "+", " ", "tru e", "yes!", "0ff"]
 RISKY_OPTIONS = {"reserve_huge_os_pages", "reserve_huge_os_pages_at", "reserve_os_memory", "use_numa_nodes"}    # numeric values make the process reserve memory at start
 SAFE_FOR_RISKY = ["0", "no", "off", "false", "abc", "1x", "--", "zero"]
